@@ -23,8 +23,10 @@ VARIABLES l,      \* next line to judge
           skewed, \* some write of this history was stamped earlier than a change its replica had already received
           trimmed,\* a purge_tombstones (RUV trim) succeeded in this history
           revoked,\* <<entry, session>> pairs some replica has shown as revoked in this history
-          dead    \* [replica -> ids observed deleted (present and not live, or gone after being present)]
-vars == <<l, del, rev, cre, seen, skewed, trimmed, revoked, dead>>
+          dead,   \* [replica -> ids observed deleted (present and not live, or gone after being present)]
+          dirty,  \* (unused)
+          aged    \* the clock jumped by (nearly) a whole changelog window earlier in this history
+vars == <<l, del, rev, cre, seen, skewed, trimmed, revoked, dead, dirty, aged>>
 
 \* ------------------------------------------------------------------ projection helpers
 Get(f, r) == IF r \in DOMAIN f THEN f[r] ELSE {}
@@ -77,6 +79,18 @@ Rev2 == IF IsInit(l) THEN {} ELSE rev \cup (IF Rec[l].op = "revive" /\ OkRes(l) 
 Cre2 == IF IsInit(l) THEN <<>> ELSE IF Rec[l].op = "create" /\ OkRes(l) THEN Append(cre, IdOf(l)) ELSE cre
 Skew2 == IF IsInit(l) THEN FALSE ELSE skewed \/ ("skew" \in DOMAIN Rec[l] /\ Rec[l].skew)
 Trim2 == IF IsInit(l) THEN FALSE ELSE trimmed \/ (Rec[l].op \in {"purge_ts", "trim"} /\ OkRes(l))
+\* C08 speaks about the state "once every replica has received every other replica's changes".  The replayed model
+\* histories map model time t to 1000 + t * tscale + rank seconds, but a `purge` needs the recycle-bin age of real
+\* builds and makes the driver jump the clock by 7 days; writes of other replicas that are undelivered at that moment,
+\* and later writes the model stamped with a smaller t, are then older than the changelog window (CHANGELOG_MAX_AGE,
+\* 7 days) and can be lost for good: a supplier no longer lists its own aged change ids, so a quiescent mesh is reached
+\* without the consumer ever receiving them (DESIGN 12.2, observation (a)).  For the rest of such a history quiescence
+\* is no evidence that everything was received, and the convergence clauses (C08, and C11's "until the changelog
+\* window expires") are not evaluated; C09's clauses, which are about exactly these lags, still are.
+ChangelogWindow == 604800
+Jump(i)  == i > 1 /\ ~IsInit(i) /\ Rec[i].now - Rec[i - 1].now >= ChangelogWindow - 3600
+Dirty2 == FALSE
+Aged2  == IF IsInit(l) THEN FALSE ELSE aged \/ Jump(l)
 Multi(c) == {c[k] : k \in {j \in 1..Len(c) : \E m \in 1..Len(c) : m # j /\ c[m] = c[j]}}
 Tracked == Del2 \ (Rev2 \cup Multi(Cre2))      \* deletions the property speaks about unconditionally
 
@@ -103,7 +117,7 @@ IsQuiescentMesh(i) == Rec[i].op = "mesh" /\ Rec[i].res.q
 ConvergedCore(i)    == \A r1, r2 \in Reps(i) : EntsCore(i, r1) = EntsCore(i, r2)
 ConvergedSes(i)     == \A r1, r2 \in Reps(i) : SesOf(i, r1) = SesOf(i, r2)
 ConvergedDerived(i) == \A r1, r2 \in Reps(i) : RecycledDerived(i, r1) = RecycledDerived(i, r2)
-Q(i, P) == IsQuiescentMesh(i) => P
+Q(i, P) == (IsQuiescentMesh(i) /\ ~Aged2) => P
 
 \* classification of a session-only divergence: one replica's session map is pointwise at least as
 \* advanced as the other's (it absorbed the other's content but the other never received it back)
@@ -120,7 +134,7 @@ RevokedNow(i) == {<<x, k>> \in UNION {{<<y, j>> : j \in DOMAIN Ents(i, r)[y].ses
                     \E r \in Reps(i) : x \in DOMAIN Ents(i, r) /\ k \in DOMAIN Ents(i, r)[x].ses /\ Ents(i, r)[x].ses[k].st = 2}
 Revoked2 == IF IsInit(l) THEN {} ELSE revoked \cup RevokedNow(l)
 \* a session any replica has revoked is not usable anywhere once the replicas are quiescent
-RevocationSticky(i) == IsQuiescentMesh(i) =>
+RevocationSticky(i) == (IsQuiescentMesh(i) /\ ~Aged2) =>   \* the statement holds "until the changelog window expires"
    \A p \in Revoked2 : \A r \in Reps(i) :
       (p[1] \in DOMAIN Ents(i, r) /\ p[2] \in DOMAIN Ents(i, r)[p[1]].ses) => Ents(i, r)[p[1]].ses[p[2]].st = 2
 
@@ -150,11 +164,13 @@ RangeDecision(i) ==
 
 \* ------------------------------------------------------------------ stepping
 Init == l = 1 /\ del = {} /\ rev = {} /\ cre = <<>> /\ seen = <<>> /\ dead = <<>> /\ skewed = FALSE /\ revoked = {} /\ trimmed = FALSE
+        /\ dirty = FALSE /\ aged = FALSE
 
 Next ==
   /\ l <= Len(Rec)
   /\ l' = l + 1
   /\ del' = Del2 /\ rev' = Rev2 /\ cre' = Cre2 /\ skewed' = Skew2 /\ revoked' = Revoked2 /\ trimmed' = Trim2
+  /\ dirty' = Dirty2 /\ aged' = Aged2
   /\ seen' = [r \in Reps(l) |-> (IF IsInit(l) THEN {} ELSE Get(seen, r)) \cup DOMAIN Ents(l, r)]
   /\ dead' = [r \in Reps(l) |->
                 (IF IsInit(l) THEN {} ELSE Get(dead, r))
@@ -166,8 +182,10 @@ Judge == l <= Len(Rec) =>
   /\ (Q(l, ConvergedCore(l))    \/ PrintT(<<"L1FAIL", "C08", l, IF Skew2 THEN "state-diverged-under-clock-skew" ELSE "state-diverged">>))
   /\ \A f \in {"conflict-entry-stale-memberof", "conflict-entry-source-uuid-set", "conflict-entry-partial-attrs", "conflict-entry-attrs-diverged"} :
         (Q(l, f \notin CnfFlavours(l)) \/ PrintT(<<"L1FAIL", "C08", l, f>>))
-  /\ (Q(l, ConvergedSes(l))     \/ PrintT(<<"L1FAIL", "C08", l, SesSig(l)>>))
-  /\ (Q(l, ConvergedDerived(l)) \/ PrintT(<<"L1FAIL", "C08", l, "recycled-entry-stale-memberof">>))
+  \* sessions and derived attributes of recycled entries are classes of their own only where the core state agrees
+  \* (where it does not, the line above has already reported the divergence they are a consequence of)
+  /\ (Q(l, ConvergedCore(l) => ConvergedSes(l))     \/ PrintT(<<"L1FAIL", "C08", l, SesSig(l)>>))
+  /\ (Q(l, ConvergedCore(l) => ConvergedDerived(l)) \/ PrintT(<<"L1FAIL", "C08", l, "recycled-entry-stale-memberof">>))
   /\ (NoResurrectionStep(l) \/ PrintT(<<"L1FAIL", "C09", l, "resurrected">>))
   /\ (NoLiveDeletedAtQuiescence(l) \/ PrintT(<<"L1FAIL", "C09", l,
           IF Trim2 THEN "deletion-never-delivered-after-trim" ELSE "deleted-entry-live-at-quiescence">>))
@@ -178,6 +196,7 @@ Judge == l <= Len(Rec) =>
   /\ (NoDanglingRef(l)      \/ PrintT(<<"L1FAIL", "C16", l, "dangling-reference-after-replication">>))
   /\ (UniqueLive(l)         \/ PrintT(<<"L1FAIL", "C19", l, "duplicate">>))
   /\ ((Rec[l].op = "mesh" => Rec[l].res.q) \/ PrintT(<<"NOTQUIESCENT", l>>))
+  /\ (~(IsQuiescentMesh(l) /\ Aged2) \/ PrintT(<<"AGED", l>>))
 
 Consumed == TLCGet("stats").distinct = Len(Rec) + 1 \/ PrintT(<<"NOTCONSUMED", TLCGet("stats").distinct, Len(Rec)>>)
 =============================================================================
